@@ -114,6 +114,64 @@ def run(cx):
     casts = lit.table(pm, "_SAFE_CASTS")
     r.check({k: getattr(v, "name", None) for k, v in casts.items()} == {"int": "int", "float": "float", "str": "str", "bool": "bool"}, "_SAFE_CASTS/identity", (pm.rel, pm.const("_SAFE_CASTS").lineno), f"_SAFE_CASTS = {casts}")
 
+    # ---- C03-EVAL-SEM ------------------------------------------------------------------------
+    import itertools
+    r = cx.rule("C03-EVAL-SEM", "the constant evaluator computes what Python computes: for every expression of a small complete grammar (all operators, chained comparisons, boolean/conditional forms, safe builtins over int/float/bool/str operands, names bound in the environment) _eval_const, evaluated by the checker's interpreter, returns exactly Python's value and type, or declines", floor=3000, exhaustive=True)
+    nums = ["0", "1", "2", "3", "-3", "2.5", "-0.5", "True", "False"]
+    strs = ["'ab'", "''"]
+    exprs = []
+    for o in ("+", "-", "*", "/", "//", "%", "**", "<<", ">>", "&", "|", "^"):
+        for a, b in itertools.product(nums, nums):
+            exprs.append(f"({a}) {o} ({b})")
+    exprs += [f"{a} + {b}" for a in strs for b in strs] + [f"{a} * {b}" for a in strs for b in ("0", "2")]
+    for o in ("-", "+", "not ", "~"):
+        exprs += [f"{o}({a})" for a in nums + strs]
+    cmp_ops = ("<", "<=", ">", ">=", "==", "!=")
+    for o in cmp_ops:
+        exprs += [f"({a}) {o} ({b})" for a, b in itertools.product(nums, nums)]
+        exprs += [f"{a} {o} {b}" for a, b in itertools.product(strs + ["'b'"], strs + ["'b'"])]
+    for o1, o2 in itertools.product(cmp_ops, cmp_ops):
+        exprs += [f"{a} {o1} {b} {o2} {c}" for a, b, c in itertools.product(("1", "3", "5"), repeat=3)]
+    exprs += [f"1 < {b} < {c} <= {d}" for b, c, d in itertools.product(("0", "2", "4"), repeat=3)]
+    for o1, o2 in itertools.product(("and", "or"), repeat=2):
+        exprs += [f"{a} {o1} {b} {o2} {c}" for a, b, c in itertools.product(("0", "1", "2", "''", "'x'"), repeat=3)]
+    exprs += [f"({a}) if ({c}) else ({b})" for a, b, c in itertools.product(("1", "2.5", "'s'"), ("0", "'t'"), ("0", "1", "''", "2.5"))]
+    for fn_ in ("abs", "int", "float", "str", "bool", "len", "round"):
+        exprs += [f"{fn_}({a})" for a in nums + strs + ["'7'", "'1.5'", "x", "s", "l"]]
+    for fn_ in ("min", "max"):
+        exprs += [f"{fn_}({a}, {b})" for a, b in itertools.product(nums, nums)]
+    exprs += ["x + 1", "x * y", "s + s", "len(s) + x", "l[0]", "l[-1]", "len(l)", "x if y else s", "x < y < 10", "y < x < 10", "-x", "not x", "x ** 2", "x // 2", "x / 2", "x % 2", "(x + y) * 2 - 1", "2 + 3 * 4", "(2 + 3) * 4", "2 ** 3 ** 2", "-2 ** 2", "10 - 4 - 3", "100 / 10 / 5", "7 // 2 * 2", "1 + 2 < 4", "not 1 < 2", "1 < 2 and 2 < 1", "1 if 1 < 5 < 3 else 2"]
+    env_src = {"x": 3, "y": 0, "s": "abc", "l": [1, 2, 3]}
+    n_bad = n_decl = 0
+    for e in exprs:
+        try:
+            want = ("ok", eval(e, {"__builtins__": {"abs": abs, "int": int, "float": float, "str": str, "bool": bool, "len": len, "round": round, "min": min, "max": max}}, dict(env_src)))
+        except Exception as ex_:
+            continue   # the expression has no value in Python: out of the property's scope
+        it = dl.Interp(pm, opaque={"ast.parse": ast.parse})
+        try:
+            out = it.call(evc, [e, {k: (list(v) if isinstance(v, list) else v) for k, v in env_src.items()}])
+        except dl.Unsupported as ex_:
+            raise AnalysisError(f"_eval_const left the evaluable subset on `{e}`: {ex_}")
+        if out.kind == "raise":
+            n_decl += 1
+            r.ok(None)      # declined: nothing is folded
+            continue
+        # same value, and the same kind of literal (an int baked as 2.0 or a str as a number would change the C++ arithmetic);
+        # bool vs int is not distinguished: True == 1 is the same value
+        kind_ = lambda v: "float" if isinstance(v, float) else "int" if isinstance(v, (bool, int)) else type(v).__name__
+        good = want[0] == "ok" and out.kind == "return" and kind_(out.value) == kind_(want[1]) and out.value == want[1]
+        if good:
+            r.ok(None)
+        else:
+            n_bad += 1
+            if n_bad <= 4:
+                r.fail(f"_eval_const/value[{'chained-comparison' if sum(e.count(o) for o in ('<', '>', '==', '!=')) > 1 else 'expression'}]", (pm, evc), f"_eval_const({e!r}) folds to {out.value!r} ({type(out.value).__name__}); Python gives {want[1]!r}" + ("" if want[0] == "ok" else " (raises)"), detail={"expr": e})
+            else:
+                r.stat.obligations += 1
+                r.stat.failed += 1
+    cx.extra["eval_sem"] = {"expressions": len(exprs), "declined": n_decl}
+
     # ---- C03-FOLD-GUARD ----------------------------------------------------------------------
     r = cx.rule("C03-FOLD-GUARD", "every transpile-time evaluation whose result is baked into the firmware happens under `not _expr_has_name(<ast of the same source text>)` (name-free), so flow-insensitivity of the constant environment cannot leak into literals", floor=15)
     WL = {
@@ -274,6 +332,84 @@ def run(cx):
                 if any("'length'" in norm(d) for d in ex if isinstance(d, ast.expr)) and any("len(value_obj)" in norm(d) or "list_length_from_ast" in norm(d) for d in nl if isinstance(d, ast.expr)):
                     found = any(isinstance(a, ast.If) and "is_declared" in norm(a.test) and "_is_list_type" in norm(a.test) for a in pm.ancestors(n))
     r.check(found, "_handle_assignment_ast/list-size-mismatch-rejected", (pm, ha), "the size-mismatch rejection for re-assigned lists is gone: the statically tracked length (used to fold len()) can become stale")
+
+
+    # ---- C03-FRESH ---------------------------------------------------------------------------
+    r = cx.rule("C03-FRESH", "a list baked into an IR node (flash pattern, glyph bitmap) is a fresh object built for that statement, never the list tracked in the constant environment: a later append/remove on the script's list cannot rewrite a value already baked", floor=2)
+    psl = pm.func("_parse_simple_lines")
+
+    def fresh(e, fn, depth=0):
+        """None if fresh, else the reason text"""
+        if depth > 6:
+            return "too deep to resolve"
+        if isinstance(e, (ast.List, ast.ListComp, ast.Tuple, ast.Constant)):
+            return None
+        if isinstance(e, ast.Call):
+            cn = call_name(e)
+            if cn in ("list", "tuple", "sorted") or (isinstance(e.func, ast.Attribute) and e.func.attr == "copy"):
+                return None
+            callee = None
+            if isinstance(e.func, ast.Name):
+                q = pm.qualname_of(fn)
+                while q and callee is None:
+                    callee = pm.funcs.get(f"{q}.{e.func.id}")
+                    q = q.rpartition(".")[0]
+                callee = callee or pm.funcs.get(e.func.id)
+            if callee is None:
+                return f"`{norm(e)}` is an opaque call"
+            for rt in [x for x in walk_local(callee) if isinstance(x, ast.Return)]:
+                if rt.value is None:
+                    continue
+                why = fresh(rt.value, callee, depth + 1)
+                if why:
+                    return f"{callee.name}() can return {why}"
+            return None
+        if isinstance(e, ast.Name):
+            lf = Locals(fn)
+            if e.id in lf.params:
+                return f"its argument `{e.id}` unchanged"
+            defs = [d for d in lf.defs.get(e.id, []) if isinstance(d, ast.expr)]
+            if not defs:
+                return f"`{e.id}` (no local definition)"
+            for d in defs:
+                why = fresh(d, fn, depth + 1)
+                if why:
+                    return why
+            return None
+        return f"`{norm(e)}`"
+
+    n_f = 0
+    for c in walk_local(psl):
+        if isinstance(c, ast.Call) and call_name(c) in ("LedFlashPattern", "LCDGlyph"):
+            fld = "pattern" if call_name(c) == "LedFlashPattern" else "bitmap"
+            v = next((k.value for k in c.keywords if k.arg == fld), None)
+            if v is None:
+                raise AnalysisError(f"{call_name(c)}(...) built without {fld}=")
+            n_f += 1
+            why = fresh(v, psl)
+            r.check(why is None, f"{call_name(c)}.{fld}/fresh-list", (pm, c), f"`{norm(v)}` may be {why}: the node would share the list object tracked for the script's variable, and a later mutation rewrites the value baked for this statement")
+    if n_f < 2:
+        raise AnalysisError("LedFlashPattern/LCDGlyph constructions not found in the parser")
+
+    # ---- C03-PER-NODE ------------------------------------------------------------------------
+    from .. import l2, pe
+    em = mod("transpile/emitter.py")
+    cx.consulted(em)
+    cls, _f = pe.ir_classes()
+    r = cx.rule("C03-PER-NODE", "each statement's baked table reaches the firmware: two flash patterns / two glyphs (same slot, same device, same block) with different values are both emitted with their own values, in order", floor=4)
+    for place in ("setup", "loop"):
+        g1, g2 = [14, 17, 17, 17, 14, 0, 0, 1], [14, 31, 31, 31, 14, 0, 0, 2]
+        nodes = [l2.lcd_decl("i2c"), cls["LCDGlyph"](name="dev", slot=0, bitmap=g1), cls["LCDGlyph"](name="dev", slot=0, bitmap=g2)]
+        res = pe.emit_program(setup=nodes) if place == "setup" else pe.emit_program(setup=nodes[:1], loop=nodes[1:])
+        t = res.text or ""
+        a, b = t.find(", ".join(map(str, g1))), t.find(", ".join(map(str, g2)))
+        r.check(not res.raised and 0 <= a < b and t.count("createChar(") == 2, f"LCDGlyph/both-bitmaps-emitted@{place}", (em, em.func("_emit_block")), f"two glyph() calls for slot 0 with different bitmaps in {place}: the firmware must program {g1} then {g2}")
+        p1, p2 = [1, 0], [0, 1, 1]
+        nodes = [l2.decl_node("Led"), cls["LedFlashPattern"](name="dev", pattern=p1, delay_ms=5), cls["LedFlashPattern"](name="dev", pattern=p2, delay_ms=5)]
+        res = pe.emit_program(setup=nodes) if place == "setup" else pe.emit_program(setup=nodes[:1], loop=nodes[1:])
+        t = res.text or ""
+        a, b = t.find("{" + ", ".join(map(str, p1)) + "}"), t.find("{" + ", ".join(map(str, p2)) + "}")
+        r.check(not res.raised and 0 <= a < b, f"LedFlashPattern/both-patterns-emitted@{place}", (em, em.func("_emit_block")), f"two flash_pattern() calls in {place} must bake {p1} then {p2}")
 
 
 def m_enclosing(pm, node):
